@@ -183,7 +183,8 @@ def render_tokens(toks, layout=None, seps=None):
     idx = 0
     for t, kind in toks:
         if kind == "eol":
-            parts.append("\n")
+            eol = getattr(layout, "eol", None)
+            parts.append(eol(prev) if (eol and prev is not None) else "\n")
             prev = None
             continue
         if kind == "sep" and seps is not None:
@@ -264,3 +265,24 @@ def type_to_str(t):
     if n == "map":
         return "map<%s,%s>" % (type_to_str(t["k"]), type_to_str(t["v"]))
     return n
+
+
+# ------------------------------------------------------------------ alternative layouts (the AST must not depend on them)
+def layout_tabs(i, left, right):
+    """a TAB after every number and literal, a space elsewhere (values followed by a tab-aligned comment or separator)"""
+    if left[1] in ("int", "dbl", "lit"):
+        return "\t"
+    return " "
+
+
+def layout_newlines(i, left, right):
+    """CRLF after separators and before closing brackets, a space elsewhere"""
+    if left[1] == "sep" or right[0] in ("}", "]", ")"):
+        return "\r\n"
+    return " "
+
+
+layout_tabs.eol = lambda prev: ("\t\n" if prev[1] in ("int", "dbl", "lit") else "\n")   # tab-aligned trailing comment position
+layout_newlines.eol = lambda prev: "\r\n"
+
+LAYOUTS = [None, layout_tabs, layout_newlines]
